@@ -1,6 +1,7 @@
 import CssVerif.Model.EncTok
 import CssVerif.Lemmas.EncEscape
 import CssVerif.Lemmas.TokDet
+import CssVerif.Lemmas.EncTokTable
 /-!
 # `escapecss` against the tokenizer's productions: helper lemmas for T8.4b of `Props/C08.lean`
 
